@@ -42,7 +42,7 @@ func init() {
 		e.RGuard("clone")
 	})
 	register("C11", Meta{
-		Explanation: "Static registration analysis: in every decorate and restore case (and the two hand-written special cases) each node allocation, inline sub-allocations included, is stored in both direction maps with itself as key/value, before any recursive conversion, under a key that cannot be nil; converters look up before creating; conversions read and write the same field (commutation with parent/child). Decides the map laws for all inputs.",
+		Explanation: "Static registration analysis: in every decorate and restore case (and the two hand-written special cases) each node allocation, inline sub-allocations included, is stored in both direction maps with itself as key/value, before any recursive conversion, under a key that cannot be nil; converters look up before creating; conversions read and write the same field (commutation with parent/child); the maps are never shrunk except for temporaries; the resolvers' classification of qualified identifiers (which licenses the selector-collapse exception) is exact. Decides the map laws for all inputs.",
 	}, func(e *Env) {
 		e.RCover("decorate", e.astNodeNames(), false)
 		e.RCover("restore", e.dstNodeNames(), true)
@@ -50,5 +50,9 @@ func init() {
 		e.RMemo()
 		e.RSym()
 		e.RSharedMapsNotReplaced()
+		// the collapse of a selector onto one Ident (the documented exception to the inverse laws)
+		// happens for whatever the resolver classifies as a qualified identifier: the exception is
+		// only as exact as that classification
+		e.RResolverClauses()
 	})
 }
